@@ -123,6 +123,7 @@ impl Serializer {
         r is Ok && old(self).non_native_type == Some(NonNativeType::Timestamp) ==>
             added(*old(self), *final(self)) =~= (if old(self).is_array_elem is OtherElement { Seq::<u8>::empty() } else { seq![0x83u8] }) + be64(v as u64),   // [C05.timestamp.encoding] [C03.rt.encoder-premise] a timestamp is ALWAYS 0x83 + 8 octets (there is no short form)
         r is Ok ==> added(*old(self), *final(self)).len() == i64_size(old(self).non_native_type, old(self).is_array_elem, v),   // [C20.size.i64-written]
+        r is Ok ==> final(self).non_native_type is None,            // [C03.ser.marker-cleared] the timestamp marker is one-shot: the next value written by the same serializer (the value of a map entry whose key was a timestamp) is written as what IT is, not as another timestamp
 //@@ end
 
 //@@ fn file=serde_amqp/src/ser.rs impl=`~ser::Serializer for &'a mut Serializer<W>` name=serialize_none
